@@ -168,9 +168,10 @@ CLAIMED = {
              "position/error count tied to the real HTMLUnicodeInputStream by exact-agreement correspondence on "
              "client operation sequences over short-reading sources and chunk sizes 1..64. End-to-end: the same "
              "characters parsed from str / StringIO / short reads / chunk sizes {1,2,3,5,7,16} / bytes, BytesIO and "
-             "non-seekable byte streams in 5 encodings must give the same tree and error list. PARTIAL: positions, "
-             "charsUntil and unget are modelled and validated but their segmentation independence is not a theorem; "
-             "decoders are not modelled. Three fixes in /repo, one known finding (invalid-codepoint positions).",
+             "non-seekable byte streams in 5 encodings must give the same tree and error list. Theorem: after k characters the "
+             "reported (line, column) is the one the first k normalised characters determine, for every segmentation "
+             "(invariant over refills). PARTIAL: charsUntil and unget are modelled and validated but positions after "
+             "them are not covered by the theorem; decoders are not modelled. Three fixes in /repo, one known finding (invalid-codepoint positions).",
         design_ref="DESIGN.md 3 C05, A.3",
         note="source modelled as the list of future read() results; codecs stream readers trusted to be "
              "segmentation independent (exercised by the end-to-end run).",
@@ -287,7 +288,9 @@ CLAIMED = {
              "in particular whenever Ser reports no error for the text token), of RCDATA elements (any text, written "
              "escaped) and of SCRIPT (text without '<!' as well) are read back exactly in the state the parser switches "
              "to; for script text with '<!--<script' the statement is refuted by a theorem and listed as a finding. "
-             "PARTIAL: the lift of those to whole streams (the parser's state switch is not part of S_tok) and entity "
+             "The lift of raw-text and RCDATA elements to WHOLE STREAMS is a theorem too, with the parser's state "
+             "switches made explicit in the statement (after style/xmp/iframe/noembed/noframes the tokenizer continues in "
+             "RAWTEXT, after title/textarea in RCDATA). PARTIAL: script elements inside streams and entity "
              "tokens are decided by re-tokenizing the real output with S_tok (extracted) for trees parsed from generated "
              "markup x options; eight listed findings.",
         design_ref="DESIGN.md 3 C08",
